@@ -1021,9 +1021,6 @@ Proof.
     cbn [app tok map]. now rewrite E3, E2, E1, IH.
 Qed.
 
-(** Text that holds no backslash and no '=' (it may hold ','). *)
-Definition plain_char (c : N) : bool := negb (c =? 92) && negb (c =? 61).
-Definition plain_text (t : bytes) : bool := forallb plain_char t.
 Definition ptok (c : N) : token := if c =? 44 then TComma else TChar c.
 
 Lemma tok_plain t rest : plain_text t = true -> tok (t ++ rest) = map ptok t ++ tok rest.
@@ -1151,10 +1148,10 @@ Proof.
 Qed.
 
 (** Tokens of the value part of an item. *)
-Definition btoks (v : value) : list token :=
+Definition btoks (emit : value -> bytes) (v : value) : list token :=
   match v with
   | VStr s => map TChar s
-  | v => match print_value v with Some t => map ptok t | None => [] end
+  | v => match print_value_f emit v with Some t => map ptok t | None => [] end
   end.
 
 Definition body_of (emit : value -> bytes) (v : value) : bytes :=
@@ -1163,21 +1160,25 @@ Definition body_of (emit : value -> bytes) (v : value) : bytes :=
   | v => match emit_simple v with Some t => t | None => emit v end
   end.
 
-Lemma noeq_btoks v : noeq (btoks v) = true.
-Proof. destruct v; cbn [btoks]; try apply noeq_tchar; try (destruct (print_value _); [apply noeq_ptok|reflexivity]). Qed.
+Lemma noeq_btoks emit v : noeq (btoks emit v) = true.
+Proof. destruct v; cbn [btoks]; try apply noeq_tchar; try (destruct (print_value_f _ _); [apply noeq_ptok|reflexivity]). Qed.
 
-Lemma body_tok emit v t rest : print_value v = Some t ->
-  tok (body_of emit v ++ rest) = btoks v ++ tok rest /\ untok (btoks v) = t.
+Lemma body_tok emit v t rest : print_value_f emit v = Some t ->
+  tok (body_of emit v ++ rest) = btoks emit v ++ tok rest /\ untok (btoks emit v) = t.
 Proof.
-  intro H. destruct v; cbn [print_value] in H; try discriminate.
-  - inversion H; subst. cbn [body_of emit_simple btoks print_value]. split; [now apply tok_plain|apply untok_ptok].
-  - inversion H; subst. cbn [body_of emit_simple btoks print_value]. split; [apply tok_plain, text_bool_plain|apply untok_ptok].
-  - inversion H; subst. cbn [body_of emit_simple btoks print_value]. split; [apply tok_plain, dec_i64_plain|apply untok_ptok].
+  intro H. destruct v; cbn [print_value_f] in H.
+  - inversion H; subst. cbn [body_of emit_simple btoks print_value_f]. split; [now apply tok_plain|apply untok_ptok].
+  - inversion H; subst. cbn [body_of emit_simple btoks print_value_f]. split; [apply tok_plain, text_bool_plain|apply untok_ptok].
+  - inversion H; subst. cbn [body_of emit_simple btoks print_value_f]. split; [apply tok_plain, dec_i64_plain|apply untok_ptok].
+  - destruct (plain_text (emit (VFloat bits))) eqn:E; [|discriminate]. inversion H; subst.
+    cbn [body_of emit_simple btoks print_value_f]. rewrite E. split; [now apply tok_plain|apply untok_ptok].
   - inversion H; subst. cbn [body_of btoks]. split; [apply tok_esc|apply untok_tchar].
-  - inversion H; subst. cbn [body_of emit_simple btoks print_value]. split; [apply tok_plain, text_bools_plain|apply untok_ptok].
-  - inversion H; subst. cbn [body_of emit_simple btoks print_value]. split; [apply tok_plain, text_ints_plain|apply untok_ptok].
+  - inversion H; subst. cbn [body_of emit_simple btoks print_value_f]. split; [apply tok_plain, text_bools_plain|apply untok_ptok].
+  - inversion H; subst. cbn [body_of emit_simple btoks print_value_f]. split; [apply tok_plain, text_ints_plain|apply untok_ptok].
+  - destruct (plain_text (emit (VFloats l))) eqn:E; [|discriminate]. inversion H; subst.
+    cbn [body_of emit_simple btoks print_value_f]. rewrite E. split; [now apply tok_plain|apply untok_ptok].
   - destruct (forallb (forallb json_plain) l) eqn:E; [|discriminate]. inversion H; subst.
-    destruct (text_strs_plain l E) as [P A]. cbn [body_of emit_simple btoks print_value]. rewrite E, A.
+    destruct (text_strs_plain l E) as [P A]. cbn [body_of emit_simple btoks print_value_f]. rewrite E, A.
     split; [now apply tok_plain|apply untok_ptok].
 Qed.
 
@@ -1258,9 +1259,9 @@ Proof.
   now rewrite cut_last_comma_app, IH.
 Qed.
 
-Definition tpairs (s : list kv) : list tpair := map (fun x => (map TChar (fst x), btoks (snd x))) s.
+Definition tpairs (emit : value -> bytes) (s : list kv) : list tpair := map (fun x => (map TChar (fst x), btoks emit (snd x))) s.
 
-Lemma tpairs_ok s : forallb tp_ok (tpairs s) = true.
+Lemma tpairs_ok emit s : forallb tp_ok (tpairs emit s) = true.
 Proof.
   induction s as [|x s IH]; [reflexivity|]. cbn [tpairs map forallb]. unfold tp_ok at 1. cbn [fst snd].
   rewrite noeq_tchar, noeq_btoks, nocomma_tchar. exact IH.
@@ -1269,12 +1270,12 @@ Qed.
 Lemma join_cons sep x r : join sep (x :: r) = x ++ match r with [] => [] | _ :: _ => sep ++ join sep r end.
 Proof. destruct r; cbn [join]; [now rewrite app_nil_r|reflexivity]. Qed.
 
-Lemma printed_cons x s l : printed (x :: s) = Some l ->
-  exists t l', print_value (snd x) = Some t /\ printed s = Some l' /\ l = (fst x, t) :: l'.
+Lemma printed_cons emit x s l : printed_f emit (x :: s) = Some l ->
+  exists t l', print_value_f emit (snd x) = Some t /\ printed_f emit s = Some l' /\ l = (fst x, t) :: l'.
 Proof.
-  unfold printed. cbn [map all_some]. unfold printed_binding at 1.
-  destruct (print_value (snd x)) as [t|]; [|discriminate].
-  destruct (all_some (map printed_binding s)) as [l'|]; [|discriminate]. intro H. inversion H. eauto.
+  unfold printed_f. cbn [map all_some]. unfold printed_binding_f at 1.
+  destruct (print_value_f emit (snd x)) as [t|]; [|discriminate].
+  destruct (all_some (map (printed_binding_f emit) s)) as [l'|]; [|discriminate]. intro H. inversion H. eauto.
 Qed.
 
 Lemma encode_kv_body emit x : encode_kv emit x = esc (fst x) ++ 61 :: body_of emit (snd x).
@@ -1284,8 +1285,8 @@ Lemma encode_cons emit x s :
   encode emit (x :: s) = encode_kv emit x ++ match s with [] => [] | _ :: _ => 44 :: encode emit s end.
 Proof. unfold encode. cbn [map]. rewrite join_cons. destruct s; reflexivity. Qed.
 
-Lemma tok_item emit x t rest : print_value (snd x) = Some t ->
-  tok (encode_kv emit x ++ rest) = map TChar (fst x) ++ TEq :: btoks (snd x) ++ tok rest.
+Lemma tok_item emit x t rest : print_value_f emit (snd x) = Some t ->
+  tok (encode_kv emit x ++ rest) = map TChar (fst x) ++ TEq :: btoks emit (snd x) ++ tok rest.
 Proof.
   intro Hv. rewrite encode_kv_body, <- app_assoc, tok_esc. f_equal.
   change ((61 :: body_of emit (snd x)) ++ rest) with (61 :: (body_of emit (snd x) ++ rest)).
@@ -1293,8 +1294,8 @@ Proof.
   f_equal. now destruct (body_tok emit _ _ rest Hv) as [-> _].
 Qed.
 
-Lemma tok_encode emit : forall s x l, printed (x :: s) = Some l ->
-  tok (encode emit (x :: s)) = map TChar (fst x) ++ TEq :: tail_toks (btoks (snd x)) (tpairs s).
+Lemma tok_encode emit : forall s x l, printed_f emit (x :: s) = Some l ->
+  tok (encode emit (x :: s)) = map TChar (fst x) ++ TEq :: tail_toks (btoks emit (snd x)) (tpairs emit s).
 Proof.
   induction s as [|y s IH]; intros x l H; apply printed_cons in H as (t & l' & Hv & Hs & _); rewrite encode_cons.
   - rewrite (tok_item emit x t [] Hv). cbn [tok tail_toks tpairs map]. now rewrite app_nil_r.
@@ -1303,13 +1304,13 @@ Proof.
     rewrite (IH y l' Hs). reflexivity.
 Qed.
 
-Lemma untok_tpairs s : forall l, printed s = Some l ->
-  map (fun p => (untok (fst p), untok (snd p))) (tpairs s) = l.
+Lemma untok_tpairs emit s : forall l, printed_f emit s = Some l ->
+  map (fun p => (untok (fst p), untok (snd p))) (tpairs emit s) = l.
 Proof.
   induction s as [|x s IH]; intros l H.
   - cbn in H. inversion H. reflexivity.
-  - apply printed_cons in H as (t & l' & Hv & Hs & ->). unfold tpairs. cbn [map fst snd]. fold (tpairs s).
-    rewrite untok_tchar. destruct (body_tok (fun _ => []) _ _ [] Hv) as [_ E]. f_equal; [f_equal; exact E | exact (IH l' Hs)].
+  - apply printed_cons in H as (t & l' & Hv & Hs & ->). unfold tpairs. cbn [map fst snd]. fold (tpairs emit s).
+    rewrite untok_tchar. destruct (body_tok emit _ _ [] Hv) as [_ E]. f_equal; [f_equal; exact E | exact (IH l' Hs)].
 Qed.
 
 Lemma encode_nonnil emit x s : encode emit (x :: s) <> [].
@@ -1317,8 +1318,15 @@ Proof.
   unfold encode. cbn [map]. rewrite join_cons. unfold encode_kv at 1. destruct (esc (fst x)); discriminate.
 Qed.
 
-(** The encoding of any set inside the printing specification decodes to its printed mapping. *)
-Lemma encode_decodable emit s : EncodingSpec s (encode emit s).
+Lemma strpair_eqb_eq a b : strpair_eqb a b = true <-> a = b.
+Proof.
+  unfold strpair_eqb. rewrite andb_true_iff, !bytes_eqb_eq. destruct a, b; cbn.
+  split; [intros [-> ->]; auto | intro H; inversion H; auto].
+Qed.
+
+(** For all eight value types: the encoding decodes to the printed mapping, given only that the float
+    texts the encoder was handed hold no backslash and no '='. *)
+Lemma encode_decodable_f emit s : EncodingSpecF emit s (encode emit s).
 Proof.
   intros l H. destruct s as [|x s].
   - cbn in H. inversion H. reflexivity.
@@ -1327,22 +1335,43 @@ Proof.
     rewrite split_eq_app by apply noeq_tchar.
     rewrite split_tail by (try apply noeq_btoks; apply tpairs_ok).
     rewrite dec_chunks_ok by apply tpairs_ok.
-    f_equal. exact (untok_tpairs (x :: s) l H).
+    f_equal. exact (untok_tpairs emit (x :: s) l H).
 Qed.
+
+(** A set without floats prints the same whatever the float texts. *)
+Lemma printed_no_float emit s : forall l, printed s = Some l -> printed_f emit s = Some l.
+Proof.
+  unfold printed, printed_f. induction s as [|[k v] s IH]; intros l H; [exact H|]. cbn [map all_some] in *.
+  unfold printed_binding_f in H at 1. unfold printed_binding_f at 1. cbn [fst snd] in *.
+  assert (E : forall t, print_value_f no_float v = Some t -> print_value_f emit v = Some t).
+  { intros t Ht. destruct v; cbn [print_value_f] in *; try exact Ht; cbn in Ht; discriminate. }
+  destruct (print_value_f no_float v) as [t|]; [|discriminate]. rewrite (E t eq_refl).
+  destruct (all_some (map (printed_binding_f no_float) s)) as [l'|]; [|discriminate].
+  now rewrite (IH l' eq_refl).
+Qed.
+
+Lemma encode_decodable emit s : EncodingSpec s (encode emit s).
+Proof. intros l H. apply encode_decodable_f. now apply printed_no_float. Qed.
 
 (** Same encoding, same printed mapping. *)
-Lemma encode_injective_printed emit1 emit2 s1 s2 l1 l2 :
-  printed s1 = Some l1 -> printed s2 = Some l2 -> encode emit1 s1 = encode emit2 s2 -> l1 = l2.
+Lemma encode_injective_printed_f emit1 emit2 s1 s2 l1 l2 :
+  printed_f emit1 s1 = Some l1 -> printed_f emit2 s2 = Some l2 -> encode emit1 s1 = encode emit2 s2 -> l1 = l2.
 Proof.
-  intros H1 H2 E. pose proof (encode_decodable emit1 s1 l1 H1) as D1.
-  pose proof (encode_decodable emit2 s2 l2 H2) as D2. rewrite E in D1. congruence.
+  intros H1 H2 E. pose proof (encode_decodable_f emit1 s1 l1 H1) as D1.
+  pose proof (encode_decodable_f emit2 s2 l2 H2) as D2. rewrite E in D1. congruence.
 Qed.
 
-Lemma strpair_eqb_eq a b : strpair_eqb a b = true <-> a = b.
+Lemma encode_injective_printed emit1 emit2 s1 s2 l1 l2 :
+  printed s1 = Some l1 -> printed s2 = Some l2 -> encode emit1 s1 = encode emit2 s2 -> l1 = l2.
+Proof. intros H1 H2. apply encode_injective_printed_f; now apply printed_no_float. Qed.
+
+Lemma encoding_ok_f_sound emit s enc : encoding_ok_f emit s enc = true -> EncodingSpecF emit s enc.
 Proof.
-  unfold strpair_eqb. rewrite andb_true_iff, !bytes_eqb_eq. destruct a, b; cbn.
-  split; [intros [-> ->]; auto | intro H; inversion H; auto].
+  unfold encoding_ok_f, EncodingSpecF. intros H l Hl. rewrite Hl in H.
+  destruct (decode_enc enc) as [d|]; [|discriminate]. cbn in H.
+  apply (list_eqb_eq _ strpair_eqb_eq) in H. now subst.
 Qed.
+
 
 Lemma encoding_ok_sound s enc : encoding_ok s enc = true -> EncodingSpec s enc.
 Proof.
@@ -1356,9 +1385,9 @@ Definition string_binding (x : kv) : option (bytes * bytes) :=
   match snd x with VStr s => Some (fst x, s) | _ => None end.
 Lemma printed_strings s : forall l, all_some (map string_binding s) = Some l -> printed s = Some l.
 Proof.
-  unfold printed. induction s as [|[k v] s IH]; intros l H; [exact H|]. cbn [map all_some] in *.
+  unfold printed, printed_f. induction s as [|[k v] s IH]; intros l H; [exact H|]. cbn [map all_some] in *.
   unfold string_binding in H at 1. cbn [fst snd] in H. destruct v; try discriminate.
-  unfold printed_binding at 1. cbn [fst snd print_value].
+  unfold printed_binding_f at 1. cbn [fst snd print_value_f].
   destruct (all_some (map string_binding s)) as [l'|]; [|discriminate]. now rewrite (IH l' eq_refl).
 Qed.
 
